@@ -17,6 +17,7 @@
     `process` call / a whole history, stated on the streaming run alone.
 -/
 import KiraModel.Proofs.StreamLemmas
+import KiraModel.Proofs.StreamSeekLemmas
 import KiraModel.Proofs.GenAgreeSound
 
 namespace K
@@ -198,5 +199,158 @@ example : ∃ st0 s0, StaticSound.new exData = .ok st0 ∧
     simp [exData, Parameter.new, Parameter.value, signNeg_real]
   exact new_bisim exData exStream (chunkDecoder_contract _ 2 4) hsame hW
     (by simp [exData, PlaybackPosition.intoSamples]) hsign
+
+/-! ### seeks (`C09_seek_*`; lemmas in Proofs/StreamSeekLemmas.lean)
+
+  What the code (and so the model) does with `handle.seek_to(x)`: the decoder thread finds the command at the start
+  of its next `run` iteration, moves its transport with `Transport::seek_to` (the function the static sound calls),
+  seeks the decoder, empties the slot — and does NOT flush the frame ring: the frames buffered before the seek are
+  still played first.  Vocabulary: `seekIndex sr x` = `(x * sr).round() as usize`; `seekLands t p` = the loop-wrapped
+  landing position (the body of C04's `seekLanding`); `W.rebase t` = the same audio with the walk started at `t`;
+  `SeekPending W … s a m x` = a sound in the middle of a seek-free history of `W` (ring = entries `a … m − 1`) with
+  `seek_to(x)` just written, target inside the audio; `SeekInv W' … s old a m` = ring is `old ++` entries `a … m − 1`
+  of the walk of `W'` (no pre-seeded entry: `a ≥ 1`), decoder transport at step `m − 1`, no seek pending. -/
+
+/-- **A seek re-establishes the ring invariant at the landing position.** The decoder iteration that finds the
+    pending `seek_to(x)`: the re-based world (walk started at the landing transport: position `seekLands …`, same loop
+    region, playing) is in-domain; afterwards the ring is the frames buffered before the seek followed by the first
+    entry of the re-based walk — the source frame AT the landing position, stamped with it —, the decoder transport is
+    one step into that walk and no seek is pending (`SeekInv`).  If nothing was buffered, that is literally the
+    `RingInv` the seek-free theorems (`ringInv_run`, `C09_packetisation_independent`) start from. -/
+theorem C09_seek_reestablishes_ring_invariant {σ : Type} {W : World} (hW : W.Ok) {D : Decoder σ ℝ} {pos : σ → Nat}
+    {good : σ → Prop} (C : Dec.Contract D W.frames.toList pos good) {s : Sys σ ℝ} {a m : Nat} {x : ℝ}
+    (P : SeekPending W pos good s a m x) (fuel : Nat) (hfuel : W.frames.size < fuel)
+    (W' : World) (hW' : W' = W.rebase (landT s.transport (seekIndex s.sampleRate x))) :
+    W'.Ok ∧ W'.t0.position = seekLands s.transport (seekIndex s.sampleRate x) ∧
+    W'.t0.loopRegion = s.transport.loopRegion ∧
+    SeekInv W' pos good (Sys.run D fuel s).2 s.ring.items 1 2 ∧
+    (Sys.run D fuel s).2.ring.items = s.ring.items ++ [⟨W.srcAt W'.t0.position, W'.t0.position⟩] ∧
+    (s.ring.items = [] → RingInv W' pos good (Sys.run D fuel s).2 1 2) := by
+  subst hW'
+  obtain ⟨h1, h2, h3⟩ := seek_applied hW C P fuel hfuel
+  refine ⟨h1, rfl, rfl, h2, h3, fun he => ?_⟩
+  rw [he] at h2
+  exact h2.ringInv
+
+/-- **… and every later seek-free history keeps it.** From the state a seek left behind (`SeekInv`), through every
+    history of non-seek commands, `pop_error`s, callbacks and decoder iterations (any pace): the ring is what is left
+    of the pre-seek frames (they only shrink) followed by entries `a' … m' − 1` of the walk re-based at the landing
+    transport, the decoder transport at step `m' − 1`; once the pre-seek frames are gone this is `RingInv` of the
+    re-based world — the hypothesis of the seek-free ring theorems, which then hold from there on (`ringInv_run`):
+    every frame pushed after the seek is the frame a transport sought to the landing position walks over. -/
+theorem C09_seek_then_ring_is_future {σ : Type} {W' : World} (hW : W'.Ok) {D : Decoder σ ℝ} {pos : σ → Nat}
+    {good : σ → Prop} (C : Dec.Contract D W'.frames.toList pos good) (fuel : Nat) (hfuel : W'.frames.size < fuel)
+    (ops : List (Streaming.Op ℝ)) (hops : ∀ c, Streaming.Op.command c ∈ ops → AudioCmd c)
+    {s s' : Sys σ ℝ} {old : List (TimestampedFrame ℝ)} {a m : Nat} (S : SeekInv W' pos good s old a m)
+    (outs : List (Frame ℝ)) (h : Sys.runOps D fuel s ops = .ok (s', outs)) :
+    ∃ old' a' m', old'.length ≤ old.length ∧ a ≤ a' ∧ m ≤ m' ∧
+      s'.ring.items = old' ++ W'.ringSlice a' m' ∧ s'.transport = W'.trAt (m' - 1) ∧
+      SeekInv W' pos good s' old' a' m' ∧ (old' = [] → RingInv W' pos good s' a' m') := by
+  obtain ⟨old', a', m', h1, h2, h3, S'⟩ := seekInv_run hW C fuel hfuel ops s s' old a m outs hops S h
+  refine ⟨old', a', m', h1, h2, h3, S'.ring, S'.transport, S', fun he => ?_⟩
+  rw [he] at S'
+  exact S'.ringInv
+
+/-- **A seek is applied exactly once.** After the iteration that applied it the slot is empty (and no other decoder
+    command appeared), so the next iteration of a live decoder with room in the ring is a plain `produce`: it pushes
+    the next frame of the re-based walk and does not seek again. -/
+theorem C09_seek_applied_once {σ : Type} {W : World} (hW : W.Ok) {D : Decoder σ ℝ} {pos : σ → Nat}
+    {good : σ → Prop} (C : Dec.Contract D W.frames.toList pos good) {s : Sys σ ℝ} {a m : Nat} {x : ℝ}
+    (P : SeekPending W pos good s a m x) (fuel : Nat) (hfuel : W.frames.size < fuel)
+    (halive : (Sys.run D fuel s).2.core.shared ≠ .stopped) (hkept : (Sys.run D fuel s).2.soundDropped = false)
+    (hroom : (Sys.run D fuel s).2.ring.isFull = false) :
+    (Sys.run D fuel s).2.cmds.seekTo = none ∧ (Sys.run D fuel s).2.cmds.seekBy = none ∧
+    Sys.run D fuel (Sys.run D fuel s).2 = Sys.produce D fuel (Sys.run D fuel s).2 := by
+  obtain ⟨_, h2, _⟩ := seek_applied hW C P fuel hfuel
+  exact ⟨h2.noSeek.2.2, h2.noSeek.2.1,
+    run_eq_produce D fuel _ halive hkept hroom h2.noSeek.1 h2.noSeek.2.1 h2.noSeek.2.2⟩
+
+/-- **Order of the two seek commands.** `seek_by` and `seek_to` travel in separate one-element slots, so the order
+    of the handle calls is not what decides: when both are pending in one decoder iteration the code applies `seek_by k`
+    FIRST — relative to `shared.position()`, the position the audio thread last published, not to a previous seek
+    target — and `seek_to x` SECOND, each exactly once (both slots empty afterwards), the ring untouched; the decoder
+    transport ends where `Transport::seek_to(round(x·sr))` lands from the intermediate transport.
+    (So "seek_to(p) then seek_by(k) lands at p + k" is NOT what the code does within one iteration: it lands on `x`.) -/
+theorem C09_seek_by_before_seek_to {σ : Type} {W : World} {D : Decoder σ ℝ} {pos : σ → Nat} {good : σ → Prop}
+    (C : Dec.Contract D W.frames.toList pos good) {s : Sys σ ℝ} (hin : StreamIn W pos good s)
+    (hv : s.transport.ValidLoop W.n) (h0 : s.core.shared ≠ .stopped) (hd : s.soundDropped = false)
+    (hfull : s.ring.isFull = false) (h1 : s.cmds.setLoopRegion = none) (k x : ℝ) (h2 : s.cmds.seekBy = some k)
+    (h3 : s.cmds.seekTo = some x) (hk : seekIndex s.sampleRate (s.sharedPosition + k) ≤ W.frames.size)
+    (hx : seekIndex s.sampleRate x ≤ W.frames.size) (fuel : Nat) :
+    ∃ s2, Sys.run D fuel s = Sys.produce D fuel s2 ∧
+      s2.transport = seekT W.n (seekT W.n s.transport (seekIndex s.sampleRate (s.sharedPosition + k)))
+        (seekIndex s.sampleRate x) ∧
+      s2.cmds.seekBy = none ∧ s2.cmds.seekTo = none ∧ s2.ring = s.ring := by
+  obtain ⟨s2, h, ht, ha, hb, _, hr, _⟩ := run_two_seeks C hin hv h0 hd hfull h1 k x h2 h3 hk hx fuel
+  exact ⟨s2, h, ht, ha, hb, hr⟩
+
+/-- **`seek_by k` alone** is a `seek_to` of `shared.position() + k` (the position the audio thread last published — up to one
+    callback and a ring of frames behind the decoder transport —, not the decoder's own position): applied once, the decoder
+    transport lands where `Transport::seek_to(round((shared.position() + k)·sr))` lands, the ring is untouched. -/
+theorem C09_seek_by_lands {σ : Type} {W : World} {D : Decoder σ ℝ} {pos : σ → Nat} {good : σ → Prop}
+    (C : Dec.Contract D W.frames.toList pos good) {s : Sys σ ℝ} (hin : StreamIn W pos good s)
+    (hv : s.transport.ValidLoop W.n) (h0 : s.core.shared ≠ .stopped) (hd : s.soundDropped = false)
+    (hfull : s.ring.isFull = false) (h1 : s.cmds.setLoopRegion = none) (k : ℝ) (h2 : s.cmds.seekBy = some k)
+    (h3 : s.cmds.seekTo = none) (hk : seekIndex s.sampleRate (s.sharedPosition + k) ≤ W.frames.size) (fuel : Nat) :
+    ∃ s1, Sys.run D fuel s = Sys.produce D fuel s1 ∧
+      s1.transport = seekT W.n s.transport (seekIndex s.sampleRate (s.sharedPosition + k)) ∧
+      s1.cmds.seekBy = none ∧ s1.cmds.seekTo = none ∧ s1.ring = s.ring := by
+  have hina : StreamIn W pos good ({ s with cmds := { s.cmds with seekBy := none } } : Sys σ ℝ) :=
+    ⟨hin.cfg_slice, hin.cfg_n, hin.inv⟩
+  obtain ⟨ds1, _, hs1⟩ := seekToIndex_closed (D := D) C hina hv _ hk
+  exact ⟨_, run_seekBy D fuel s h0 hd hfull h1 k h2 _ hs1 h3, rfl, rfl, h3, rfl⟩
+
+/-- **A seek lands where the static sound's transport lands.** `DecodeScheduler::seek_to(x)` (index inside the
+    decoder's audio, valid loop region) never fails and leaves the decoder transport exactly at the result of
+    `Transport::seek_to(index)` — the call `StaticSound::seek_to_index` makes — in closed form: position `seekLands`
+    (the index itself without a loop region or inside it; moved by whole loop lengths into the region otherwise — the
+    body of C04's `seekLanding`, whose theorems `C04_seek_lands` … describe it), loop region unchanged, stopped iff the
+    landing is at or beyond the end; the ring is not flushed.
+    The INDEX differs between the two sounds: streaming rounds (`(x·sr).round()`), static truncates (`(x·sr) as usize`). -/
+theorem C09_seek_lands_like_static_transport {σ : Type} {W : World} {D : Decoder σ ℝ} {pos : σ → Nat} {good : σ → Prop}
+    (C : Dec.Contract D W.frames.toList pos good) {s : Sys σ ℝ} (hin : StreamIn W pos good s)
+    (hv : s.transport.ValidLoop W.n) (x : ℝ) (hx : seekIndex s.sampleRate x ≤ W.frames.size) :
+    ∃ s', Sys.seekTo D s x = .ok s' ∧
+      s.transport.seekTo (seekIndex s.sampleRate x) W.n = .ok s'.transport ∧
+      s'.transport.position = seekLands s.transport (seekIndex s.sampleRate x) ∧
+      s'.transport.loopRegion = s.transport.loopRegion ∧
+      s'.transport.playing = (if W.n ≤ seekLands s.transport (seekIndex s.sampleRate x) then false
+                              else s.transport.playing) ∧
+      s'.ring = s.ring ∧ s'.cmds = s.cmds := by
+  obtain ⟨ds', _, h⟩ := seekToIndex_closed (D := D) C hin hv _ hx
+  exact ⟨_, h, transport_seekTo_closed s.transport _ W.n hv, rfl, rfl, rfl, rfl, rfl⟩
+
+/-! non-vacuity of the seek theorems: a concrete sound (three frames, loop over the last two, play head at 1, the
+    pre-seeded entry in the ring, decoder with packets of 2 and seeks on multiples of 4) with `seek_to(0.0)` pending -/
+
+-- (`exSeekWorld`, `exSeekSys`, `exSeek_pending` … are in Proofs/StreamSeekLemmas.lean)
+
+example : ∃ (W : World) (s : Sys Nat ℝ) (a m : Nat) (x : ℝ), W.Ok ∧
+    Dec.Contract (chunkDecoder W.frames.toList 2 4) W.frames.toList (fun p => p) (fun _ => True) ∧
+    SeekPending W (fun p => p) (fun _ => True) s a m x :=
+  ⟨exSeekWorld, _, 0, 1, 0, exSeekWorld_ok, chunkDecoder_contract _ 2 4, exSeek_pending⟩
+
+/-- hypothesis of `C09_seek_then_ring_is_future` (a `SeekInv` state exists: the one the seek above leaves behind) -/
+example : ∃ (W' : World) (s : Sys Nat ℝ) (old : List (TimestampedFrame ℝ)) (a m : Nat), W'.Ok ∧
+    SeekInv W' (fun p => p) (fun _ => True) s old a m :=
+  have h := C09_seek_reestablishes_ring_invariant exSeekWorld_ok (chunkDecoder_contract _ 2 4) exSeek_pending 4
+    (by simp [exSeekWorld]) _ rfl
+  ⟨_, _, _, 1, 2, h.1, h.2.2.2.1⟩
+
+/-- hypotheses of `C09_seek_by_before_seek_to` and `C09_seek_lands_like_static_transport` -/
+example : StreamIn exSeekWorld (fun p => p) (fun _ => True) (exSeekSys { seekBy := some 0, seekTo := some 0 }) ∧
+    (exSeekSys { seekBy := some 0, seekTo := some 0 }).transport.ValidLoop exSeekWorld.n ∧
+    (exSeekSys { seekBy := some 0, seekTo := some 0 }).core.shared ≠ .stopped ∧
+    (exSeekSys { seekBy := some 0, seekTo := some 0 }).ring.isFull = false ∧
+    seekIndex 4 ((exSeekSys { seekBy := some 0, seekTo := some 0 }).sharedPosition + 0) ≤ exSeekWorld.frames.size ∧
+    seekIndex 4 0 ≤ exSeekWorld.frames.size :=
+  ⟨exSeek_in _, exSeekWorld_ok.valid, by simp [exSeekSys, SoundCore.new], exSeek_room _,
+    by simp [exSeekSys, seekIndex_zero], by simp [seekIndex_zero]⟩
+
+/-- hypotheses of `C09_seek_by_lands` -/
+example : (exSeekSys { seekBy := some 0 }).cmds.seekBy = some 0 ∧ (exSeekSys { seekBy := some 0 }).cmds.seekTo = none ∧
+    StreamIn exSeekWorld (fun p => p) (fun _ => True) (exSeekSys { seekBy := some 0 }) ∧
+    seekIndex 4 ((exSeekSys { seekBy := some 0 }).sharedPosition + 0) ≤ exSeekWorld.frames.size :=
+  ⟨rfl, rfl, exSeek_in _, by simp [exSeekSys, seekIndex_zero]⟩
 
 end K
